@@ -41,6 +41,7 @@ func ruleR07a(c *Ctx) {
 	// that the helper has run on every path on which it returns a nil error
 	helpers := c.withHelpers("", fd, 2)
 	guaranteed := map[*types.Func]map[int]bool{}
+	runsStage := map[*types.Func]bool{}
 	var analyse func(body *ast.BlockStmt, self *types.Func) map[int]bool // stages possibly missing at a success return
 	analyse = func(body *ast.BlockStmt, self *types.Func) map[int]bool {
 		init := flowState{}
@@ -107,6 +108,18 @@ func ruleR07a(c *Ctx) {
 			}
 		}
 		guaranteed[hfn] = g
+		// does the helper run a stage at all (perhaps only per file, so that nothing is guaranteed for an empty bundle)?
+		ast.Inspect(hd.Body, func(x ast.Node) bool {
+			if call, ok := x.(*ast.CallExpr); ok {
+				if stageOf(call) >= 0 {
+					runsStage[hfn] = true
+				}
+				if cal := calleeFunc(call, info); cal != nil && runsStage[cal] {
+					runsStage[hfn] = true
+				}
+			}
+			return true
+		})
 	}
 	var missing []string
 	var mpos token.Pos
@@ -125,24 +138,26 @@ func ruleR07a(c *Ctx) {
 	_ = mpos
 	// per-file stages inside a range over the files
 	perFile := map[int]bool{}
-	ast.Inspect(fd.Body, func(x ast.Node) bool {
-		rs, ok := x.(*ast.RangeStmt)
-		if !ok {
-			return true
-		}
-		if !strings.HasSuffix(exprKey(rs.X), ".files") {
-			return true
-		}
-		ast.Inspect(rs.Body, func(y ast.Node) bool {
-			if call, ok := y.(*ast.CallExpr); ok {
-				if i := stageOf(call); i >= 0 {
-					perFile[i] = true
-				}
+	for _, hd := range helpers { // Compile itself, or the helper the loop was moved into
+		ast.Inspect(hd.Body, func(x ast.Node) bool {
+			rs, ok := x.(*ast.RangeStmt)
+			if !ok {
+				return true
 			}
+			if !strings.HasSuffix(exprKey(rs.X), ".files") {
+				return true
+			}
+			ast.Inspect(rs.Body, func(y ast.Node) bool {
+				if call, ok := y.(*ast.CallExpr); ok {
+					if i := stageOf(call); i >= 0 {
+						perFile[i] = true
+					}
+				}
+				return true
+			})
 			return true
 		})
-		return true
-	})
+	}
 	c.check(perFile[0] && perFile[1], "R07a", "soy.Bundle.Compile#every-file-parsed-and-registered", fd.Pos(),
 		"each file of the bundle is parsed and added to the registry", "the loop over the bundle's files does not both parse and register each file")
 	// errors of the stages are honoured (SSA error discipline)
@@ -155,7 +170,7 @@ func ruleR07a(c *Ctx) {
 	ssaFuncs := []*ssa.Function{f}
 	for _, hd := range helpers[1:] {
 		for _, cand := range allPkgFunctions(c, c.SSA[""]) {
-			if cand.Syntax() == ast.Node(hd) && len(guaranteed[typesFuncOf(cand)]) > 0 {
+			if cand.Syntax() == ast.Node(hd) && (len(guaranteed[typesFuncOf(cand)]) > 0 || runsStage[typesFuncOf(cand)]) {
 				helperFns[cand] = true
 				ssaFuncs = append(ssaFuncs, cand)
 			}
@@ -190,7 +205,7 @@ func ruleR07a(c *Ctx) {
 						isStage = true
 					}
 				}
-				if !isStage && sc != nil && !(helperFns[sc] && len(guaranteed[typesFuncOf(sc)]) > 0) {
+				if !isStage && sc != nil && !helperFns[sc] {
 					continue
 				}
 				// dynamic calls returning error are the user's extra parse passes
@@ -362,14 +377,66 @@ func ruleR07bFor(c *Ctx, withChecker, withJS bool) {
 		return
 	}
 	cinfo := c.Pkgs["parsepasses"].TypesInfo
-	ast.Inspect(ck.Body, func(x ast.Node) bool {
+	// arms moved into methods of their own: their parameters stand for the arguments at the call sites
+	paramArgs := map[types.Object][]ast.Expr{}
+	ckScope := &ast.BlockStmt{}
+	for _, hd := range c.withHelpers("parsepasses", ck, 1) {
+		ckScope.List = append(ckScope.List, hd.Body)
+	}
+	ast.Inspect(ckScope, func(x ast.Node) bool {
 		call, ok := x.(*ast.CallExpr)
 		if !ok {
 			return true
 		}
+		for _, hd := range c.allFuncDecls("parsepasses") {
+			if cinfo.Defs[hd.Name] != types.Object(calleeFunc(call, cinfo)) || calleeFunc(call, cinfo) == nil {
+				continue
+			}
+			k := 0
+			for _, fl := range hd.Type.Params.List {
+				for _, nm := range fl.Names {
+					if k < len(call.Args) {
+						paramArgs[cinfo.Defs[nm]] = append(paramArgs[cinfo.Defs[nm]], call.Args[k])
+					}
+					k++
+				}
+			}
+		}
+		return true
+	})
+	// appends to the list the entry consults for unused params (uses, not bindings) are not binder appends
+	useAppends := map[*ast.CallExpr]bool{}
+	if entry := c.mustFunc("parsepasses", "CheckDataRefs"); entry != nil {
+		U := map[*types.Var]bool{}
+		ast.Inspect(entry.Body, func(x ast.Node) bool {
+			if se, ok := x.(*ast.SelectorExpr); ok {
+				if fv := fieldOf(se, cinfo); fv != nil && fv.Name() != "params" {
+					if _, ok := fv.Type().Underlying().(*types.Slice); ok {
+						U[fv] = true
+					}
+				}
+			}
+			return true
+		})
+		ast.Inspect(ckScope, func(x ast.Node) bool {
+			if as, ok := x.(*ast.AssignStmt); ok && len(as.Lhs) == 1 && len(as.Rhs) == 1 {
+				if call, ok := as.Rhs[0].(*ast.CallExpr); ok {
+					if fv := fieldOf(as.Lhs[0], cinfo); fv != nil && U[fv] {
+						useAppends[call] = true
+					}
+				}
+			}
+			return true
+		})
+	}
+	ast.Inspect(ckScope, func(x ast.Node) bool {
+		call, ok := x.(*ast.CallExpr)
+		if !ok || useAppends[call] {
+			return true
+		}
 		isAppend := false
-		if id, ok := call.Fun.(*ast.Ident); ok && id.Name == "append" {
-			isAppend = true
+		if id, ok := call.Fun.(*ast.Ident); ok && id.Name == "append" && len(call.Args) > 0 && fieldOf(call.Args[0], cinfo) != nil {
+			isAppend = true // to a list kept in the checker (not to a local slice of a helper)
 		}
 		if _, ok := appendHelpers(c, "parsepasses")[calleeFunc(call, cinfo)]; ok {
 			isAppend = true // tc.declareLet(node.Name): the append, moved into a method
@@ -381,6 +448,13 @@ func ruleR07bFor(c *Ctx, withChecker, withJS bool) {
 				ast.Inspect(a, func(y ast.Node) bool {
 					if se, ok := y.(*ast.SelectorExpr); ok && fieldOfExpr(se, cinfo) != nil {
 						sels = append(sels, se)
+					}
+					if id, ok := y.(*ast.Ident); ok {
+						for _, arg := range paramArgs[cinfo.Uses[id]] {
+							if se, ok := ast.Unparen(arg).(*ast.SelectorExpr); ok && fieldOfExpr(se, cinfo) != nil {
+								sels = append(sels, se)
+							}
+						}
 					}
 					return true
 				})
@@ -641,8 +715,10 @@ func ruleR07e(c *Ctx) {
 		// statement indices
 		appendAt, truncAt := -1, -1
 		visitAt := map[string]int{}
-		returns := false
-		for i, s := range cc.Body {
+		// the arm, with a call that hands the node to a method of its own (checkFor(node)) replaced by that method's body
+		arm := c.expandArm("parsepasses", cc.Body)
+		returns := arm.returns
+		for i, s := range arm.stmts {
 			if _, ok := s.(*ast.ReturnStmt); ok {
 				returns = true
 			}
@@ -674,7 +750,7 @@ func ruleR07e(c *Ctx) {
 					return true
 				}
 				for _, a := range call.Args {
-					if se, ok := ast.Unparen(a).(*ast.SelectorExpr); ok {
+					if se, ok := ast.Unparen(arm.substArg(a, info)).(*ast.SelectorExpr); ok {
 						if fv := fieldOfExpr(se, info); fv != nil {
 							if _, seen := visitAt[fv.Name()]; !seen {
 								visitAt[fv.Name()] = i
